@@ -33,7 +33,7 @@ FAULTS = [
     ('undefined', 'addi x5, x5, %offset(nowhere_24)'), ('undefined', 'pack <I UNDEFINED_25'), ('undefined', 'c.j %offset(nowhere_26)'),
     ('undefined', 'KDEF_27 = UNDEFINED_27 + 1'), ('undefined', 'bnez x8, nowhere_28'), ('undefined', 'tail nowhere_29'),
     ('malformed', 'addi x5, x5, 1 +'), ('malformed', 'lui x5, %hi('), ('malformed', 'addi x5, x5, %lo('), ('malformed', 'addi x5, x5, (1'),
-    ('malformed', 'KBAD_31 = 3 *'), ('malformed', 'dw 1 2 +'), ('malformed', 'addi x5, x5, %offset'), ('malformed', 'li x5, )('),
+    ('malformed', 'KBAD_31 = 3 *'), ('malformed', 'KOFF_33 = %offset({label})'), ('malformed', 'KPOS_34 = %position({label}, 4)'), ('malformed', 'dw 1 2 +'), ('malformed', 'addi x5, x5, %offset'), ('malformed', 'li x5, )('),
     ('malformed', 'addi x5, x5'), ('malformed', 'add x5, x6'), ('malformed', 'frobnicate x5, x6'), ('malformed', 'beq x5, x6'),
     ('malformed', 'bytes 1 zz'), ('malformed', 'align four'), ('malformed', 'lw x5'), ('malformed', 'sw x5, x6'),
     ('nonint', 'addi x5, x5, 1/2'), ('nonint', 'KF_41 = 1.5'), ('nonint', 'li x5, 2.0'), ('nonint', 'dw 3/4'), ('nonint', 'bytes 1.5 2'),
